@@ -1519,3 +1519,49 @@ func (c *Ctx) PathCase(fnSpec, cond string, idx int, pattern, desc string) {
 	}
 	c.add("P", fnSpec, role, desc, report.OK, fmt.Sprintf("%d path(s)", n), c.fnPos(f))
 }
+
+// VarUpdatedWhen: the source variable named v of fn (register-promoted: its control-flow joins carry the name) takes
+// a value matching pattern only on edges that lie under condition cond; at least one such edge exists.
+func (c *Ctx) VarUpdatedWhen(fnSpec, v, pattern, cond, desc string) {
+	role := "varupdate/" + v + "/" + cond
+	pattern, cond = c.X(pattern), c.X(cond)
+	f := c.Fn(fnSpec)
+	if f == nil {
+		return
+	}
+	n, phis := 0, 0
+	for _, b := range f.Fn.Blocks {
+		for _, ins := range b.Instrs {
+			phi, ok := ins.(*ssa.Phi)
+			if !ok {
+				break
+			}
+			if phi.Comment != v {
+				continue
+			}
+			phis++
+			for i, e := range phi.Edges {
+				if ep, isPhi := e.(*ssa.Phi); isPhi && ep.Comment == v {
+					continue // the variable's own previous value
+				}
+				if _, isParam := e.(*ssa.Parameter); isParam {
+					continue
+				}
+				if !ir.MatchAny(pattern, f.Term(e)) {
+					c.add("P", fnSpec, role, desc, report.Violated, fmt.Sprintf("%s is assigned %s, want %s", v, short(f.Term(e).String()), pattern), c.blockPos(b.Preds[i], f))
+					return
+				}
+				n++
+				if ok, seen := condHolds(f, b.Preds[i], cond); !ok {
+					c.add("P", fnSpec, role, desc, report.Violated, fmt.Sprintf("%s is assigned outside the condition; in force: %s", v, short(seen)), c.blockPos(b.Preds[i], f))
+					return
+				}
+			}
+		}
+	}
+	if phis == 0 || n == 0 {
+		c.add("P", fnSpec, role, desc, report.Violated, fmt.Sprintf("no conditional assignment to %s found (%d joins)", v, phis), c.fnPos(f))
+		return
+	}
+	c.add("P", fnSpec, role, desc, report.OK, fmt.Sprintf("%d assignment edge(s)", n), c.fnPos(f))
+}
